@@ -109,10 +109,11 @@ Call(ev) ==
                THEN {V(ev, "listing", 0, ev.arr)} ELSE {}
       vAux == IF ev.aux THEN {} ELSE {V(ev, "aux", 0, "")}
       vArg == IF ev.argok THEN {} ELSE {V(ev, "argument-slice-modified", 0, "")}
-      vBuf == IF ev.bufch = <<>> THEN {} ELSE {V(ev, "caller-buffer-written", 0, ev.bufch)}
+      vBuf == IF ev.bufch = <<>> THEN {} ELSE {V(ev, "caller-buffer-written", 0, [ids |-> ev.bufch, frozen |-> ev.bufrz])}
       vGor == IF "gor" \in DOMAIN ev /\ ev.gor > 0 THEN {V(ev, "goroutine-leak", 0, ev.gor)} ELSE {}
       vAlias == {V(ev, "result-aliases-input", ev.alias[i][1], ev.alias[i][2]) : i \in DOMAIN ev.alias}
-      vProbe == {V(ev, IF ev.probe[i].b = 0 THEN "caller-buffer-written" ELSE "sharing-witnessed", ev.probe[i].a, ev.probe[i].b) :
+      vProbe == {V(ev, IF ev.probe[i].b = 0 THEN "caller-buffer-written" ELSE "sharing-witnessed", ev.probe[i].a,
+                   IF ev.probe[i].b = 0 THEN [ids |-> <<>>, frozen |-> ev.probe[i].f] ELSE ev.probe[i].b) :
                    i \in {j \in DOMAIN ev.probe : ev.probe[j].w}}
       rs == [s \in Slots |-> IF \E i \in DOMAIN ev.rep : ev.rep[i].s = s
                              THEN ev.rep[CHOOSE i \in DOMAIN ev.rep : ev.rep[i].s = s].ch ELSE reps[s]]
